@@ -1,16 +1,113 @@
 // ---- more of src/parsing/buffers.rs (inside `pub mod buffers`)
-/// R6: loop over a `Take<&mut BufReader<R>>` (a `&mut` stored in a struct is outside Verus' reach): contract ASSUMED,
-/// checked natively by bounded enumeration (vp/native: all wires over {CR,LF,x} up to 9 bytes x all segmentations)
-//@@ fn src/parsing/buffers.rs - read_line_strict mode=external_body props=C04,C05
+/// std::io::Take<&mut BufReader<R>> (fields `inner`, `limit`): R12, the generic struct instantiated at a `&mut`
+pub struct TakeRef<'a, R: Read>(pub &'a mut BufReader<R>, pub u64);
+/// `<Take<&mut BufReader<R>> as BufRead>::read_until` (assumed; the std model is checked by native/vp_native_take_read_until_model):
+/// the same contract as `vp_take_read_until`, with the limit carried in the struct: it goes down by exactly what was appended
+#[verifier::external_body]
+pub fn vp_takeref_read_until<'a, R: Read>(t: &mut TakeRef<'a, R>, d: u8, b: &mut Vec<u8>) -> (res: io::Result<usize>)
+    ensures
+        mut_ref_future(final(t).0) == mut_ref_future(old(t).0),
+        is_suffix(wire(&mut_ref_current(final(t).0)), wire(&mut_ref_current(old(t).0))),
+        final(t).1 <= old(t).1,
+        final(b)@.len() + final(t).1 == old(b)@.len() + old(t).1,
+        fault_free(&mut_ref_current(old(t).0)) ==> fault_free(&mut_ref_current(final(t).0)) && res.is_ok(),
+        res matches Ok(k) ==> k == until_len(wire(&mut_ref_current(old(t).0)), old(t).1, d)
+            && final(b)@ == old(b)@ + wire(&mut_ref_current(old(t).0)).take(k as int)
+            && wire(&mut_ref_current(final(t).0)) == wire(&mut_ref_current(old(t).0)).skip(k as int),
+        wrote(&mut_ref_current(final(t).0)) == wrote(&mut_ref_current(old(t).0)), origin(&mut_ref_current(final(t).0)) == origin(&mut_ref_current(old(t).0)),
+{
+    let mut tk = (&mut *t.0).take(t.1);
+    let r = tk.read_until(d, b);
+    t.1 = tk.limit();
+    r
+}
+/// body VERIFIED: the `Take` over the borrowed reader lives across the loop (R12: TakeRef), every `read_until` is the std model
+//@@ fn src/parsing/buffers.rs - read_line_strict props=C04,C05,C19 vattr=loop_isolation(false);rlimit(50)
+//@@ rw R12
+reader.take(max_buf_len)
+//@@ =>
+TakeRef(reader, max_buf_len)
+//@@ method R12
+read_until
+//@@ =>
+vp_takeref_read_until(&mut @@RECV, @@ARGS)
+//@@ splice before
+buf.clear();
+//@@ with
+    let ghost w0 = wire(reader);
+    let ghost ff0 = fault_free(reader);
+    let ghost wr0 = wrote(reader);
+    let ghost or0 = origin(reader);
+    let ghost fut0 = mut_ref_future(reader);
+//@@ splice after
+loop
+//@@ with
+        invariant
+            mut_ref_future(reader.0) == fut0,
+            n == buf@.len(), n + reader.1 == max_buf_len, // id: line_buffer_and_limit_add_up [C05]
+            n <= w0.len(), buf@ == w0.take(n as int), wire(&mut_ref_current(reader.0)) == w0.skip(n as int), // id: consumed_exactly_what_is_buffered [C04,C19]
+            ff0 ==> fault_free(&mut_ref_current(reader.0)),
+            wrote(&mut_ref_current(reader.0)) == wr0, origin(&mut_ref_current(reader.0)) == or0,
+            n == 0 || w0[n - 1] == 10u8,
+            forall|j: int| 1 <= j < n ==> !(w0[j - 1] == 13u8 && #[trigger] w0[j] == 10u8), // id: no_crlf_before_the_cursor [C04]
+        decreases reader.1, // id: every_round_consumes_budget [C05]
+//@@ splice before_stmt
+let k =
+//@@ with
+        let ghost n0 = n;
+        let ghost lim0 = reader.1;
+        let ghost cur0 = w0.skip(n0 as int);
+        proof { head_lemmas::lemma_until_len_props(cur0, lim0, 10u8); crate::sfx::lemma_suffix_skip(w0, n0 as int); }
+//@@ splice after_stmt
+let k =
+//@@ with
+        proof { assert(k <= lim0 && k <= cur0.len()); }
+//@@ splice after_stmt
+n += k
+//@@ with
+        proof {
+            assert(buf@ =~= w0.take(n as int));
+            assert(w0.skip(n0 as int).skip(k as int) =~= w0.skip(n as int));
+            assert forall|j: int| 0 <= j < k implies cur0[j] == w0[n0 + j] by { }
+            if n > 0 { assert(buf@[n - 1] == w0[n - 1]); }
+            if n > 1 { assert(buf@[n - 2] == w0[n - 2]); }
+            assert forall|j: int| 1 <= j < n - 1 implies !(w0[j - 1] == 13u8 && #[trigger] w0[j] == 10u8) by {
+                if j >= n0 { assert(cur0[j - n0] == w0[j]); }
+            }
+        }
+//@@ splice before
+return Err(io::ErrorKind::UnexpectedEof.into());
+//@@ with
+            proof {
+                if max_buf_len == 16384 && ff0 && strict_line(w0) is Some {
+                    head_lemmas::lemma_first_crlf_props(w0);
+                    let i = first_crlf(w0);
+                    assert(i >= n0);
+                    assert(cur0[i - n0] == w0[i]);
+                    if k > 0 { assert(cur0[k - 1] == w0[n - 1]); }
+                    assert(false);
+                }
+            }
+//@@ splice before
+buf.truncate(
+//@@ with
+            proof {
+                head_lemmas::lemma_first_crlf_at(w0, n - 1);
+                assert(w0.take(n as int).take(n - 2) =~= w0.take(n - 2));
+            }
+//@@ splice block_end
+loop
+//@@ with
+        proof { if k < 2 && n0 > 0 { assert(w0[n - 2] == 10u8); } }
 //@@ contract
     ensures
-        is_suffix(wire(final(reader)), wire(old(reader))),
+        is_suffix(wire(final(reader)), wire(old(reader))), // id: wire_only_advances [C04]
         fault_free(old(reader)) ==> fault_free(final(reader)),
         wrote(final(reader)) == wrote(old(reader)), origin(final(reader)) == origin(old(reader)),
-        max_buf_len == 16384 ==> (res matches Ok(n) ==> strict_line(wire(old(reader))) == Some((final(buf)@, n as int)) && n >= 2 && n <= wire(old(reader)).len()
+        max_buf_len == 16384 ==> (res matches Ok(n) ==> strict_line(wire(old(reader))) == Some((final(buf)@, n as int)) && n >= 2 && n <= wire(old(reader)).len() // id: line_ends_at_first_crlf [C04,C19]
                     && wire(final(reader)) == wire(old(reader)).skip(n as int) && final(buf)@.len() == n - 2),
-        final(buf)@.len() <= max_buf_len,
-        max_buf_len == 16384 && fault_free(old(reader)) && strict_line(wire(old(reader))) is Some ==> res is Ok,
+        final(buf)@.len() <= max_buf_len, // id: header_line_buffer_capped [C05]
+        max_buf_len == 16384 && fault_free(old(reader)) && strict_line(wire(old(reader))) is Some ==> res is Ok, // id: complete_header_line_is_returned [C19]
 //@@ end
 
 //@@ fn src/parsing/buffers.rs - trim_byte props=C04,C05
